@@ -633,6 +633,11 @@ func runConc(args []string) {
 	}
 	rearm(seed, rr, want, enc)
 	pubsubConc(seed, rounds, want, enc)
+	ho := rounds
+	if ho > 2 && os.Getenv("VERIF_TIER") != "thorough" {
+		ho = 2
+	}
+	pubsubHandover(seed, ho, want, enc)
 	bv := rounds
 	if bv > 3 && os.Getenv("VERIF_TIER") != "thorough" {
 		bv = 3
